@@ -97,7 +97,13 @@ func (w *FindRules) Do(ctx *Context, loc *Location) {
 	w.Children = make([]*EvalRule, 0, 0)
 	for id, rule := range rs {
 		Log(DEBUG, ctx, "FindRules.Do", "rid", id)
-		rule.Id = id
+		if rule.Id != id {
+			// A rule from a state's cache is shared with every
+			// other event that is being processed and already
+			// carries its id; only a rule made for this event
+			// is written to.
+			rule.Id = id
+		}
 
 		var bss []Bindings
 		var err error
